@@ -23,7 +23,7 @@ SCRIPTS = [
     (["adex-bad"], 6),
     (["adex-ok"], 3),
     (["adex-bad", "session"], 3),
-    (["session", "addapk"], 6),
+    (["session", "addapk"], 10),
     (["session", "adddex", "session"], 4),
     (["session", "event"], 12),
     (["session", "sysevent", "save"], 10),
